@@ -5,7 +5,7 @@ import Spydr.Eblif.Spec
 
 namespace Spydr.Eblif
 
-theorem lexGo_word (w : List Char) (hw : ∀ c ∈ w, isWs c = false ∧ c ≠ '\n') :
+theorem lexGo_word (w : List Char) (hw : ∀ c ∈ w, isWs c = false ∧ c ≠ '\n' ∧ c ≠ '\r') :
     ∀ (cur : List Char) (d : Bool) (rest : List Char),
       lexGo cur d (w ++ ' ' :: rest) = flushW (cur ++ w) ++ lexGo [] true rest := by
   induction w with
@@ -15,8 +15,8 @@ theorem lexGo_word (w : List Char) (hw : ∀ c ∈ w, isWs c = false ∧ c ≠ '
   | cons c w ih =>
     intro cur d rest
     have hc := hw c (by simp)
-    have hw' : ∀ x ∈ w, isWs x = false ∧ x ≠ '\n' := fun x hx => hw x (by simp [hx])
-    simp only [List.cons_append, lexGo, hc.2, if_false, hc.1]
+    have hw' : ∀ x ∈ w, isWs x = false ∧ x ≠ '\n' ∧ x ≠ '\r' := fun x hx => hw x (by simp [hx])
+    simp only [List.cons_append, lexGo, hc.2.1, hc.2.2, if_false, hc.1]
     rw [ih hw' (cur ++ [c]) true rest]
     simp
 
